@@ -16,6 +16,8 @@ package reactive
 
 /*@
 global regval U_Type     -- the value read in the registering critical section (ghost; Type is the type parameter)
+global snap Int     -- the copy of the contents made in the registering critical section (ghost)
+global regmut Int   -- the mutations object built from that copy (ghost)
 global regid Int    -- the update id read in the registering critical section (ghost)
 
 type callback
@@ -143,7 +145,7 @@ func readableVariable.OnUpdate
   ghost after call newCallback: regval = r.value
   ghost after call newCallback: regid = r.uniqueUpdateID
   ghost before call newCallback: assert held(r.valueMutex)
-  ghost before call List.PushBack: assert held(r.valueMutex) && arg0 == createdCallback
+  ghost before call List.PushBack: assert held(r.valueMutex) && arg1 == createdCallback
   ghost before call callback.LockExecution: assert held(r.valueMutex) && arg0 == createdCallback && arg1 == regid && r.uniqueUpdateID == regid && r.value == regval
   ghost after call callback.LockExecution: assume result
   ghost before unlock: assert held(createdCallback.executionMutex)
@@ -157,7 +159,7 @@ func readableVariable.OnUpdate$1
   opt sequential
   requires r != nil && *r != nil && (*r).registeredCallbacks != nil && createdCallback != nil && *createdCallback != nil && callbackElement != nil && unlocked((*createdCallback).executionMutex)
   modifies (*createdCallback).unsubscribed, ghost(ds.llen), ghost(ds.lseq)
-  ghost before call List.Remove: assert arg0 == *callbackElement
+  ghost before call List.Remove: assert arg1 == *callbackElement
   ensures (*createdCallback).unsubscribed && unlocked((*createdCallback).executionMutex)
 
 -- ---------------------------------------------------------------------------------------------------------------
@@ -169,7 +171,7 @@ func set.apply
   opt twophase
   requires s != nil && s.readableSet != nil && unlocked(s.readableSet.mutex) && s.readableSet.value != nil && s.readableSet.updateCallbacks != nil && mutations != nil
   modifies monitor(s.readableSet), ghost(ds.smem), ghost(ds.salive), ghost(ds.madd), ghost(ds.mdel)
-  ensures unlocked(s.readableSet.mutex)
+  ensures unlocked(s.readableSet.mutex) && r0 != nil
 
 -- what is reported is what happened: folding the reported mutations over the old contents gives the new contents,
 -- an element is reported added only if it was absent and deleted only if it was present (after the additions)
@@ -192,7 +194,7 @@ func set.replace
   opt twophase
   requires s != nil && s.readableSet != nil && unlocked(s.readableSet.mutex) && s.readableSet.value != nil && s.readableSet.updateCallbacks != nil && elements != nil
   modifies monitor(s.readableSet), ghost(ds.smem), ghost(ds.salive), ghost(ds.madd), ghost(ds.mdel)
-  ensures unlocked(s.readableSet.mutex)
+  ensures unlocked(s.readableSet.mutex) && r0 != nil
 
 -- Replace: the set takes the contents of elements, and what is reported is the DIFFERENCE: folding it over the old
 -- contents gives the new contents
@@ -209,4 +211,80 @@ func set.replace#sequential
   ensures forall e Int :: sel(sel(ds.smem, sel(ds.madd, r0)), e) ==> !sel(sel(old(ds.smem), s.readableSet.value), e)
   ensures forall e Int :: sel(sel(ds.smem, sel(ds.mdel, r0)), e) ==> sel(sel(old(ds.smem), s.readableSet.value), e)
   ensures r1 == old(s.readableSet.uniqueUpdateID) + 1 && s.readableSet.uniqueUpdateID == r1 && r1 != 0
+
+-- writers: the set mutex is held from before the contents change until every snapshot callback has been served; a
+-- callback is invoked only under its execution lock, tagged with this update and not unsubscribed, with exactly the
+-- mutations this update applied
+func set.Apply
+  instantiate ElementType: int
+  requires s != nil && s.readableSet != nil && unlocked(s.mutex) && unlocked(s.readableSet.mutex) && s.readableSet.value != nil && s.readableSet.updateCallbacks != nil && mutations != nil
+  modifies everything
+  ghost before call set.apply: assert held(s.mutex)
+  ghost after call set.apply: assume forall i Int :: 0 <= i && i < len(r2) ==> r2[i] != nil        -- the list holds created callbacks only
+  ghost before call callback#Invoke: assert held(s.mutex) && held(registeredCallback.executionMutex) && !registeredCallback.unsubscribed && registeredCallback.lastUpdate == updateID
+  ghost before call callback#Invoke: assert arg0 == appliedMutations
+  loop 1 invariant held(s.mutex)
+  loop 1 invariant forall i Int :: 0 <= i && i < len(registeredCallbacks) ==> registeredCallbacks[i] != nil && unlocked(registeredCallbacks[i].executionMutex)
+  ensures unlocked(s.mutex)
+
+-- Compute: the same protocol; the factory sees the set under the set mutex
+func set.Compute
+  instantiate ElementType: int
+  requires s != nil && s.readableSet != nil && unlocked(s.mutex) && unlocked(s.readableSet.mutex) && s.readableSet.value != nil && s.readableSet.updateCallbacks != nil && mutationFactory != nil
+  callback mutationFactory(set) (r)
+    ensures r != nil
+  modifies everything
+  ghost before call set.apply: assert held(s.mutex)
+  ghost after call set.apply: assume forall i Int :: 0 <= i && i < len(r2) ==> r2[i] != nil        -- the list holds created callbacks only
+  ghost before call callback#Invoke: assert held(s.mutex) && held(registeredCallback.executionMutex) && !registeredCallback.unsubscribed && registeredCallback.lastUpdate == updateID
+  ghost before call callback#Invoke: assert arg0 == appliedMutations
+  loop 1 invariant held(s.mutex)
+  loop 1 invariant forall i Int :: 0 <= i && i < len(registeredCallbacks) ==> registeredCallbacks[i] != nil && unlocked(registeredCallbacks[i].executionMutex)
+  ensures unlocked(s.mutex)
+
+-- Replace: the same protocol
+func set.Replace
+  instantiate ElementType: int
+  requires s != nil && s.readableSet != nil && unlocked(s.mutex) && unlocked(s.readableSet.mutex) && s.readableSet.value != nil && s.readableSet.updateCallbacks != nil && elements != nil
+  modifies everything
+  ghost before call set.replace: assert held(s.mutex)
+  ghost after call set.replace: assume forall i Int :: 0 <= i && i < len(r2) ==> r2[i] != nil        -- the list holds created callbacks only
+  ghost before call callback#Invoke: assert held(s.mutex) && held(registeredCallback.executionMutex) && !registeredCallback.unsubscribed && registeredCallback.lastUpdate == updateID
+  ghost before call callback#Invoke: assert arg0 == appliedMutations
+  loop 1 invariant held(s.mutex)
+  loop 1 invariant forall i Int :: 0 <= i && i < len(registeredCallbacks) ==> registeredCallbacks[i] != nil && unlocked(registeredCallbacks[i].executionMutex)
+  ensures unlocked(s.mutex)
+
+-- a subscription: in ONE critical section of the value mutex the contents are copied (a snapshot, not the live set),
+-- the callback is appended and its execution lock is taken; the snapshot is what the callback is told first
+func readableSet.OnUpdate
+  instantiate ElementType: int
+  requires r != nil && unlocked(r.mutex) && r.updateCallbacks != nil && r.ReadableSet != nil && callback != nil
+  callback callback(m)
+  modifies everything
+  ghost after call ReadableSet.Clone: snap = result
+  ghost before call ReadableSet.Clone: assert held(r.mutex) && arg0 == r.ReadableSet
+  ghost before call SetMutations.WithAddedElements: assert arg1 == snap
+  ghost after call SetMutations.WithAddedElements: regmut = result
+  ghost after call newCallback: regid = r.uniqueUpdateID
+  ghost before call newCallback: assert held(r.mutex)
+  ghost before call List.PushBack: assert held(r.mutex) && arg1 == createdCallback
+  ghost before call callback.LockExecution: assert held(r.mutex) && arg0 == createdCallback && arg1 == regid && r.uniqueUpdateID == regid
+  ghost after call callback.LockExecution: assume result
+  ghost before unlock: assert held(createdCallback.executionMutex)
+  ghost before call callback#Invoke: assert held(createdCallback.executionMutex) && unlocked(r.mutex) && arg0 == regmut && sel(ds.madd, regmut) == snap
+  ensures unlocked(r.mutex)
+
+func readableSet.OnUpdate$1
+  instantiate ElementType: int
+  opt sequential
+  requires r != nil && *r != nil && (*r).updateCallbacks != nil && createdCallback != nil && *createdCallback != nil && callbackElement != nil && unlocked((*createdCallback).executionMutex)
+  modifies (*createdCallback).unsubscribed, ghost(ds.llen), ghost(ds.lseq)
+  ghost before call List.Remove: assert arg1 == *callbackElement
+  ensures (*createdCallback).unsubscribed && unlocked((*createdCallback).executionMutex)
+
+-- ---------------------------------------------------------------------------------------------------------------
+-- Event: a Variable[bool] whose transformation keeps true once it was set (it can only be triggered, never reset)
+func newEvent$1
+  ensures r0 <==> (currentValue || newValue)
 @*/
